@@ -45,6 +45,7 @@ def pEv : P Ev := do
   else if t = "Z" then do let s ← nat; let l ← nat; let tm ← nat; pure (.crash s l tm)
   else if t = "I" then do let c ← nat; pure (.invoke c)
   else if t = "Y" then do let s ← nat; let l ← nat; pure (.shutdownHung s l)
+  else if t = "NOPV" then do let s ← nat; pure (.noPreVote s)
   else if t = "LC" then do
     let s ← nat; let l ← nat; let v ← nat; let il ← nat
     pure (.leaderCh s l (if v = 2 then none else some (v ≠ 0)) (il ≠ 0))
